@@ -1,0 +1,39 @@
+//go:build verif
+
+package coordinator
+
+import (
+	"sort"
+
+	"github.com/influxdata/influxdb/query"
+)
+
+// VerifRemoteGroup describes one remote shard group of a cluster shard mapping.
+type VerifRemoteGroup struct {
+	NodeID   uint64
+	ShardIDs []uint64
+	Dirty    []uint64
+}
+
+// VerifRemoteGroups exposes the remote shard groups (node, shard ids, dirty set) of a
+// mapping returned by ClusterShardMapper.MapShards to the external verification harness.
+func VerifRemoteGroups(sg query.ShardGroup) []VerifRemoteGroup {
+	a, ok := sg.(*ClusterShardMapping)
+	if !ok {
+		return nil
+	}
+	var out []VerifRemoteGroup
+	for _, groups := range a.RemoteShardMapping {
+		for _, g := range groups {
+			vg := VerifRemoteGroup{NodeID: g.nodeID, ShardIDs: g.shards.shardIDs()}
+			g.dirty.Range(func(k, _ interface{}) bool {
+				vg.Dirty = append(vg.Dirty, k.(uint64))
+				return true
+			})
+			sort.Slice(vg.Dirty, func(i, j int) bool { return vg.Dirty[i] < vg.Dirty[j] })
+			out = append(out, vg)
+		}
+	}
+	sort.Slice(out, func(i, j int) bool { return out[i].NodeID < out[j].NodeID })
+	return out
+}
